@@ -368,7 +368,8 @@ sim::RunResult run(const sim::Json& sc) {
       if (cont && want_err && (long)rec.msgs.size() < want_errs) flag("ERROR_NOT_REPORTED", "count", "expected at least " + std::to_string(want_errs) + " error reports, got " + std::to_string(rec.msgs.size()));
     }
   }
-  uint64_t h = sim::fnv1a(got.str());
+  if (::getenv("VERIF_DUMP")) fprintf(stderr, "---- got: %s\n---- thrown: %s\n---- out: %s\n---- msgs: %zu\n", got.str().c_str(), sim::norm_paths(thrown).c_str(), sim::norm_paths(out).substr(0, 2000).c_str(), rec.msgs.size());
+  uint64_t h = sim::fnv1a(sim::norm_paths(got.str()));   // a string option may have swallowed a path of the scratch directory
   h = sim::fnv1a(sim::norm_paths(thrown), h); h = sim::fnv1a(sim::norm_paths(out), h);
   for (auto& m : rec.msgs) h = sim::fnv1a(sim::norm_paths(m), h);
   int oki = ok; h = sim::fnv1a(&oki, sizeof oki, h);
